@@ -116,13 +116,15 @@ O1 == NIntDocs
 O2 == O1 + NMalformed
 O3 == O2 + NFields
 O4 == O3 + 2
-Count == O4 + NEveryChar
+O5 == O4 + NEveryChar
+Count == O5 + NBadPresence
 ItemAt(g) ==
   IF g <= O1 THEN IntDocAt(g)
   ELSE IF g <= O2 THEN MalformedAt(g - O1)
   ELSE IF g <= O3 THEN FieldAt(g - O2)
   ELSE IF g <= O4 THEN NullChainAt(g - O3)
-  ELSE EveryCharAt(g - O4)
+  ELSE IF g <= O5 THEN EveryCharAt(g - O4)
+  ELSE BadPresenceAt(g - O5)
 VARIABLE n
 INSTANCE GenBase
 =============================================================================
